@@ -58,6 +58,8 @@ func main() {
 	}
 }
 
+func fileExists(p string) bool { _, err := os.Stat(p); return err == nil }
+
 func cmdRun(args []string) {
 	fs := flag.NewFlagSet("run", flag.ExitOnError)
 	repo := fs.String("repo", "/repo", "")
@@ -105,7 +107,11 @@ func cmdRun(args []string) {
 		if o.Status == "discharged" && *dumpAll && *dump != "" {
 			os.MkdirAll(*dump, 0o755)
 			name := strings.NewReplacer("/", "_", "(", "_", ")", "_", "*", "_", "$", "_", "[", "_", "]", "_").Replace(o.Name)
-			os.WriteFile(fmt.Sprintf("%s/%s.smt2", *dump, name), []byte(w.query(o, false)), 0o644)
+			fn := fmt.Sprintf("%s/%s.smt2", *dump, name)
+			for k := 2; fileExists(fn); k++ {
+				fn = fmt.Sprintf("%s/%s~%d.smt2", *dump, name, k)
+			}
+			os.WriteFile(fn, []byte(w.query(o, false)), 0o644)
 		}
 		if o.Status == "discharged" {
 			nd++
